@@ -164,6 +164,8 @@ class Prop(BaseProp):
             out.append({"name": "dd", "cases": dcases, "env": ddgen.env_of(cfg)})
         # the manager's routing (index of registered files, in-memory shard, flushes) against its model
         out += mgrgen.streams(rng, tier)
+        # xorbs of more than 65536 chunks through the manager (the index holds 16-bit chunk offsets); oracle only
+        out += mgrgen.big_streams(rng)
         return out
 
     def compare(self, stream, case, io, mo):
